@@ -114,12 +114,12 @@ def run(ctx: Ctx) -> None:
             if mod.startswith("asyncio"):
                 wf = [c for c in calls(fn) if call_name(c) == "asyncio.wait_for"]
                 ok = len(wf) == 1 and norm(arg(wf[0], 0)) == f"{ev}.wait()" and norm(arg(wf[0], 1, "timeout")) == f"self.config.{stage}_timeout"
-                hs = [h for t in walk_local(fn) if isinstance(t, ast.Try) for h in t.handlers]
+                hs = [h for t in walk_local(fn) if isinstance(t, ast.Try) for h in t.handlers if "TimeoutError" in handler_classes(h)]
                 ok = ok and len(hs) == 1 and "TimeoutError" in handler_classes(hs[0]) and any(isinstance(s, ast.Raise) and "LifespanTimeoutError" in norm(s) for s in hs[0].body)
             else:
                 fa = [n for n in walk_local(fn) if isinstance(n, ast.With) and norm(n.items[0].context_expr) == f"trio.fail_after(self.config.{stage}_timeout)"]
                 ok = len(fa) == 1 and any(f"{ev}.wait()" in norm(s) for s in fa[0].body)
-                hs = [h for t in walk_local(fn) if isinstance(t, ast.Try) for h in t.handlers]
+                hs = [h for t in walk_local(fn) if isinstance(t, ast.Try) for h in t.handlers if "TooSlowError" in handler_classes(h)]
                 ok = ok and len(hs) == 1 and "TooSlowError" in handler_classes(hs[0]) and any(isinstance(s, ast.Raise) and "LifespanTimeoutError" in norm(s) for s in hs[0].body)
             ctx.check("C14.R3", f"{mod}:Lifespan.wait_for_{stage}", f"wait bounded by config.{stage}_timeout -> LifespanTimeoutError", ok, f"{stage} wait is unbounded or its timeout is swallowed", fn)
             # R7
@@ -127,10 +127,16 @@ def run(ctx: Ctx) -> None:
             ok = len(puts) == 1 and norm(arg(puts[0], 0)) == "{'type': 'lifespan.%s'}" % stage and isinstance(getattr(puts[0], "_parent", None), ast.Await)
             ga = guard_atoms(puts[0]) if puts else set()
             ok = ok and ga <= {("self.supported", True), ("not self.supported", False)}
+            if mod.startswith("trio") and puts:
+                cov = [h for t_ in walk_local(fn) if isinstance(t_, ast.Try) and any(puts[0] is x for s_ in t_.body for x in ast.walk(s_)) for h in t_.handlers]
+                got = set().union(*[handler_classes(h) for h in cov]) if cov else set()
+                okc = {"BrokenResourceError", "ClosedResourceError"} <= got and all(isinstance(h.body[-1], ast.Return) for h in cov)
+                ctx.check("C14.R6", f"{mod}:Lifespan.wait_for_{stage}", "application already left the lifespan scope (channel closed) -> return", okc,
+                          "handle_lifespan closes its channels when the application returns; an application that returns immediately for the lifespan scope (every WSGI application) makes this send raise ClosedResourceError and the trio worker never starts", puts[0])
             ctx.check("C14.R7", f"{mod}:Lifespan.wait_for_{stage}", f"sends lifespan.{stage} exactly once", ok, f"wait_for_{stage} must deliver lifespan.{stage} to the application", puts[0] if puts else fn)
             # R6: returns at once when unsupported
-            rets = [n for n in walk_local(fn) if isinstance(n, ast.Return) and n.value is None]
-            ok = len(rets) == 1 and (("self.supported", False) in guard_atoms(rets[0]) or ("not self.supported", True) in guard_atoms(rets[0])) and puts and rets[0].lineno < puts[0].lineno
+            rets = [n for n in walk_local(fn) if isinstance(n, ast.Return) and n.value is None and (("self.supported", False) in guard_atoms(n) or ("not self.supported", True) in guard_atoms(n))]
+            ok = len(rets) == 1 and bool(puts) and rets[0].lineno < puts[0].lineno
             ctx.check("C14.R6", f"{mod}:Lifespan.wait_for_{stage}", "returns immediately when lifespan is unsupported", ok, "an application without lifespan support would block the server", fn)
         snd = repo.func(mod, "Lifespan.asgi_send")
         for stage, ev in (("startup", "self.startup.set"), ("shutdown", "self.shutdown.set")):
